@@ -1,0 +1,72 @@
+//go:build verif
+// +build verif
+
+package scanner
+
+import (
+	"context"
+
+	"github.com/logrange/logrange/pkg/scanner/model"
+	"github.com/logrange/logrange/pkg/storage"
+)
+
+// VC17Handle is one scanner "process" under test (verification harness, property C17): the real
+// Scanner with its real workers and parsers; only the periodic sync ticker is replaced by explicit
+// Sync() calls (the ticker's period is at least a second).
+type VC17Handle struct {
+	s      *Scanner
+	ctx    context.Context
+	events chan<- *model.Event
+}
+
+// VC17Worker is a snapshot of one worker
+type VC17Worker struct {
+	Id      string
+	File    string
+	Offset  int64 // desc offset
+	Stopped bool
+	Current bool // the worker's desc is the one in the scanner's desc map
+}
+
+// VC17Start is Scanner.Run without runSyncWorkers: NewScanner, init (loadState + sync) and
+// runPersistState (which writes the state once more when ctx is cancelled).
+func VC17Start(ctx context.Context, cfg *Config, st storage.Storage, events chan<- *model.Event) (*VC17Handle, error) {
+	s, err := NewScanner(cfg, st)
+	if err != nil {
+		return nil, err
+	}
+	if err := s.init(ctx, events); err != nil {
+		return nil, err
+	}
+	s.runPersistState(ctx)
+	return &VC17Handle{s: s, ctx: ctx, events: events}, nil
+}
+
+// Sync is what the sync ticker does: scanPaths, mergeDescs, syncWorkers, setDescs
+func (h *VC17Handle) Sync() { h.s.sync(h.ctx, h.events) }
+
+// Persist is what the persist ticker does
+func (h *VC17Handle) Persist() error { return h.s.persistState() }
+
+// Wait is Scanner.WaitAllJobsDone
+func (h *VC17Handle) Wait() error { return h.s.WaitAllJobsDone() }
+
+// Descs returns (id, file, offset, lastSeenSize) of the scanner's current descriptors
+func (h *VC17Handle) Descs() [][4]interface{} {
+	var res [][4]interface{}
+	for _, d := range h.s.getDescs() {
+		res = append(res, [4]interface{}{d.Id, d.File, d.getOffset(), d.getLastSeenSize()})
+	}
+	return res
+}
+
+// Workers returns a snapshot of the workers the scanner knows
+func (h *VC17Handle) Workers() []VC17Worker {
+	ds := h.s.getDescs()
+	var res []VC17Worker
+	for _, w := range h.s.workers.Load().(workers) {
+		res = append(res, VC17Worker{Id: w.desc.Id, File: w.desc.File, Offset: w.desc.getOffset(),
+			Stopped: w.isStopped(), Current: ds[w.desc.Id] == w.desc})
+	}
+	return res
+}
